@@ -152,9 +152,16 @@ def engine_oracle(engines, check_align=False):
                 continue
             if e == "jit" and ikv.get("jitcode") is not None and mkv.get("jitcodesem") is not None and ikv["jitcode"] != mkv["jitcodesem"]:
                 corr = "CORR:the JIT's machine code (%s) differs from the byte-exact emitter model's (%s)" % (ikv["jitcode"], mkv["jitcodesem"])
+            if e == "jit" and mkv.get("x86valid") == "0":
+                corr = corr or "CORR:the emitter model's bytes do not decode (X86.decode) to the instruction-level description of the JIT (JitAst.validate)"
             if v0 == "compiled" or mkv.get("claim") != "in": continue
             want = "ok:r0=%s:mem=%s:mbuff=%s:LOG=%s" % (fi.get("r0"), fi.get("mem"), fi.get("mbuff"), fi.get("log"))
             got, _, al = v0.partition(":align=")
+            if e == "jit" and mkv.get("x86sem") is not None:
+                # the x86-64 model executing the emitter model's bytes must compute what the processor computed from the real bytes
+                xs, _, mis = mkv["x86sem"].partition(":mis=")
+                if xs != got: corr = corr or "CORR:the x86-64 model run on the emitted bytes gives '%s' where the processor gives '%s'" % (xs[:90], got[:90])
+                if mis not in ("", "0") and check_align: return "jit: the emitted code enters a helper with rsp %% 16 != 0 at the call (x86-64 model, %s call(s))" % mis
             if check_align and al not in ("", "ff", "8"): return "%s: helper entered with rsp %% 16 = %s (the C ABI requires 8 at entry, i.e. 16-byte alignment at the call)" % (e, al)
             if got != want:
                 mkv["engine_as_modelled"] = "1" if got == sem else "0"
